@@ -149,4 +149,5 @@ def main():
               "run() entered beyond the cycle limit must return a defined value.")
 
 if __name__ == '__main__':
-    main()
+    from lib.report import guarded
+    guarded(main)
